@@ -2,6 +2,7 @@ use crate::ctx::Shard;
 
 pub mod c01;
 pub mod c04;
+pub mod c05;
 pub mod c06;
 pub mod c07;
 pub mod c08;
@@ -15,6 +16,7 @@ pub fn dispatch(engine: &str, sh: &mut Shard) -> bool {
     match engine {
         "c01" => c01::run(sh),
         "c04" => c04::run(sh),
+        "c05" => c05::run(sh),
         "c06" => c06::run(sh),
         "c07" => c07::run(sh),
         "c08" => c08::run(sh),
